@@ -8,7 +8,7 @@ from typing import Dict, List, Set
 from ..astutil import calls_in, const_str, dotted, lexical_guards, name_stores, own_exprs, raises_of, unparse, walk_local, walk_stmts
 from ..report import Registry, chain, sub
 from ._helpers_rules_d import call_nodes, callee_is, const_is, guard_atom_set, qualname
-from ._helpers_rob_g2 import calls_of_name, normal_form, owners_through_helpers
+from ._helpers_rob_g2 import calls_of_name, normal_form, owners_through_helpers, single_defs
 
 R = Registry(
     "C47",
@@ -322,6 +322,9 @@ OFF_REASONS = {
     "no-autoflush-flag": "the caller passed the PASSIVE flag NO_AUTOFLUSH: `passive & NO_AUTOFLUSH`",
     "caller-request": "the function's own `no_autoflush` parameter (every call site passing it is itself an instance of this rule)",
     "just-autoflushed": "an _autoflush() call dominates the site in the same function",
+    "committed-value-load": "the same flag set carries LOAD_AGAINST_COMMITTED: the load fetches the previous (committed) value of an "
+                            "attribute that is being changed, for its history -- it is not a view of pending changes "
+                            "(only for sites that add the NO_AUTOFLUSH passive flag)",
 }
 FOLLOWED_PARAMS = {"no_autoflush"}
 # sites that are not loads on behalf of the application
@@ -456,6 +459,130 @@ def _autoflush_off_sites(ctx):
     return out
 
 
+# ---- sites that *manufacture* the NO_AUTOFLUSH reason: the passive flag added to a flag set
+BASE = "orm/base.py"
+FLAG_OFF = "NO_AUTOFLUSH"
+FLAG_COMMITTED = "LOAD_AGAINST_COMMITTED"
+FLAG_KIND = "passive|NO_AUTOFLUSH"
+
+
+def _terminal(e):
+    return e.id if isinstance(e, ast.Name) else (e.attr if isinstance(e, ast.Attribute) else None)
+
+
+def _flag_leaves(e, defs, depth=0, via_xor=False):
+    """[(terminal name of a leaf, reached through `^`)] of the flag expression `e` (a tree of `|` / `^`), looking
+    through the once-bound names of `defs`"""
+    if isinstance(e, ast.BinOp) and isinstance(e.op, (ast.BitOr, ast.BitXor)):
+        x = via_xor or isinstance(e.op, ast.BitXor)
+        return _flag_leaves(e.left, defs, depth, x) + _flag_leaves(e.right, defs, depth, x)
+    if isinstance(e, ast.Name) and e.id in defs and depth < 4:
+        return _flag_leaves(defs[e.id], defs, depth + 1, via_xor)
+    return [(_terminal(e), via_xor)]
+
+
+def _flag_carriers(ctx) -> Set[str]:
+    """NO_AUTOFLUSH and every pre-packaged PassiveFlag member whose definition includes it"""
+    cls = ctx.index.cls(f"{BASE}::PassiveFlag")
+    defs = {}
+    for st in cls.node.body:
+        if isinstance(st, ast.Assign) and len(st.targets) == 1 and isinstance(st.targets[0], ast.Name):
+            defs[st.targets[0].id] = st.value
+    ctx.require(FLAG_OFF in defs and FLAG_COMMITTED in defs, "PassiveFlag lacks NO_AUTOFLUSH / LOAD_AGAINST_COMMITTED")
+    carriers = {FLAG_OFF}
+    changed = True
+    while changed:
+        changed = False
+        for nm, v in defs.items():
+            if nm not in carriers and isinstance(v, ast.BinOp) and any(leaf in carriers for leaf, _ in _flag_leaves(v, {})):
+                carriers.add(nm)
+                changed = True
+    return carriers
+
+
+def _module_defs(m) -> Dict[str, ast.expr]:
+    return {nm: vs[0] for nm, vs in m.assigns.items() if len(vs) == 1}
+
+
+def _flag_off_sites(ctx):
+    """[(module, pm, function node | None, occurrence, maximal flag expression, definition stmt of the local it is read
+    through | None)] for every place in orm/ and ext/ that puts NO_AUTOFLUSH INTO a passive value: the flag (or a local /
+    constant that carries it) used as a value -- not as the mask of an `&` test, not inverted, not compared"""
+    carriers = _flag_carriers(ctx)
+    out = []
+    for m in ctx.index.all_modules():
+        if not (m.relpath.startswith("orm/") or m.relpath.startswith("ext/")) or not any(c in m.source for c in carriers):
+            continue
+        pm = m.parents()
+        local_cache: Dict[int, Dict[str, ast.expr]] = {}
+
+        def local_carriers(fn):
+            """{once-bound local of fn: its value} for locals whose value carries the flag"""
+            if fn is None:
+                return {}
+            hit = local_cache.get(id(fn))
+            if hit is None:
+                defs = single_defs(fn)
+                hit = {nm: v for nm, v in defs.items() if any(leaf in carriers for leaf, _ in _flag_leaves(v, defs))}
+                local_cache[id(fn)] = hit
+            return hit
+
+        mdefs = _module_defs(m)
+        mod_c = {nm: v for nm, v in mdefs.items() if any(leaf in carriers for leaf, _ in _flag_leaves(v, mdefs))}
+        for n in ast.walk(m.tree):
+            if not isinstance(n, (ast.Name, ast.Attribute)) or not isinstance(n.ctx, ast.Load):
+                continue
+            fn = _enclosing_function(pm, n)
+            loc_c = local_carriers(fn)
+            if fn is not None:
+                # a module constant that carries the flag WITH its justification (LOAD_AGAINST_COMMITTED in the same
+                # set) is read like a once-bound local: judged where it is used.  (One without is reported where it is
+                # defined: its uses in other modules cannot be enumerated.)
+                shadow = {x.arg for x in fn.args.posonlyargs + fn.args.args + fn.args.kwonlyargs} | {nm for nm, _, _ in name_stores(fn)}
+                loc_c = dict({nm: v for nm, v in mod_c.items() if nm not in shadow and _flag_site_reason(m, None, v)}, **loc_c)
+            is_local = isinstance(n, ast.Name) and n.id in loc_c
+            if _terminal(n) not in carriers and not is_local:
+                continue
+            if isinstance(pm.get(n), ast.Attribute):
+                continue    # `<carrier>.something`: not the flag value itself
+            # the definitions inside the flag class are not uses
+            anc = pm.get(n)
+            in_flag_class = False
+            while anc is not None:
+                if isinstance(anc, ast.ClassDef) and anc.name == "PassiveFlag" and m.relpath == BASE:
+                    in_flag_class = True
+                anc = pm.get(anc)
+            if in_flag_class:
+                continue
+            top = n
+            while isinstance(pm.get(top), ast.BinOp) and isinstance(pm.get(top).op, (ast.BitOr, ast.BitXor)):
+                top = pm.get(top)
+            par = pm.get(top)
+            if (isinstance(par, ast.BinOp) and isinstance(par.op, ast.BitAnd)) or isinstance(par, ast.Compare) \
+                    or (isinstance(par, ast.UnaryOp) and isinstance(par.op, (ast.Invert, ast.Not))):
+                continue    # a test / a mask / the flag being taken out
+            # the binding of a once-bound local that carries the flag is judged where the local is used
+            if isinstance(par, (ast.Assign, ast.AnnAssign)) and par.value is top:
+                tg = par.targets if isinstance(par, ast.Assign) else [par.target]
+                if len(tg) == 1 and isinstance(tg[0], ast.Name) and tg[0].id in loc_c and loc_c[tg[0].id] is par.value:
+                    continue
+            via = None
+            if is_local:
+                via = pm.get(loc_c[n.id])
+                while via is not None and not isinstance(via, ast.stmt):
+                    via = pm.get(via)
+            out.append((m, pm, fn, n, top, via))
+    return out
+
+
+def _flag_site_reason(m, fn, top) -> bool:
+    """the flag set that NO_AUTOFLUSH is added to also carries LOAD_AGAINST_COMMITTED (as an `|` operand)"""
+    defs = dict(_module_defs(m))
+    if fn is not None:
+        defs.update(single_defs(fn))
+    return any(nm == FLAG_COMMITTED and not x for nm, x in _flag_leaves(top, defs))
+
+
 def _site_reasons(ctx, pm, fn, site, cond):
     """whitelisted reasons implied by the conditions under which `site` (a node inside function `fn`) is reached"""
     g = ctx.cfg(fn)
@@ -480,31 +607,53 @@ def _site_reasons(ctx, pm, fn, site, cond):
     return reasons
 
 
-@R.rule("C47-R5", floor=7, template="T-GUARD",
+@R.rule("C47-R5", floor=8, template="T-GUARD",
         desc="every site that runs or prepares a statement with autoflush switched off ({'autoflush'|'_autoflush': False}, "
-             ".autoflush(False), execution_options(autoflush=False), no_autoflush=<x>) does so under a condition that implies one "
-             "of the whitelisted reasons: pending parent, NO_AUTOFLUSH passive flag, the caller's own no_autoflush request, "
-             "or an autoflush that was just performed")
+             ".autoflush(False), execution_options(autoflush=False), no_autoflush=<x>, or the passive flag NO_AUTOFLUSH put INTO "
+             "a flag set: `<flags> | NO_AUTOFLUSH`, `|=`, a local / constant carrying it used as a value) does so under a condition "
+             "that implies one of the whitelisted reasons: pending parent, NO_AUTOFLUSH passive flag already given by the caller, "
+             "the caller's own no_autoflush request, an autoflush that was just performed, or (flag sites only) the same flag set "
+             "carries LOAD_AGAINST_COMMITTED (old-value load for history)")
 def r5(ctx):
     seen: Dict[str, int] = {}
-    for m, pm, fn, site, kind, cond in sorted(_autoflush_off_sites(ctx), key=lambda t: (t[0].relpath, t[3].lineno, t[3].col_offset)):
-        fk = f"{m.relpath}::{qualname(pm, site)}"
+    sites = [(m, pm, fn, site, kind, cond, None, None) for m, pm, fn, site, kind, cond in _autoflush_off_sites(ctx)]
+    sites += [(m, pm, fn, site, FLAG_KIND, None, top, via) for m, pm, fn, site, top, via in _flag_off_sites(ctx)]
+    n_flag = 0
+    for m, pm, fn, site, kind, cond, top, via in sorted(sites, key=lambda t: (t[0].relpath, t[3].lineno, t[3].col_offset)):
+        fk = f"{m.relpath}::{qualname(pm, site)}" if qualname(pm, site) else f"{m.relpath}::<module>"
         seen[(fk, kind)] = seen.get((fk, kind), 0) + 1
         key = f"{fk}:autoflush-off[{kind}]" + (f"#{seen[(fk, kind)]}" if seen[(fk, kind)] > 1 else "")
         loc = f"{m.path}:{site.lineno}"
         if fk in OFF_EXEMPT:
             ctx.ok(key, "exempt: " + OFF_EXEMPT[fk])
             continue
+        reasons = set()
+        if top is not None:
+            n_flag += 1
+            if _flag_site_reason(m, fn, top):
+                ctx.ok(key, "reason: committed-value-load")
+                continue
+            if fn is None:
+                ctx.violation(key, f"the passive flag NO_AUTOFLUSH is put into the constant `{unparse(top)}` that does not also carry "
+                                   f"LOAD_AGAINST_COMMITTED: every load run with it skips the autoflush and no longer sees pending changes", loc)
+                continue
         g = ctx.cfg(fn)
         st = site
         while st is not None and not isinstance(st, ast.stmt):
             st = pm.get(st)
-        nodes = g.nodes_for(st) if st is not None else []
-        ctx.require(nodes, f"{key}: statement not found in the CFG")
-        guards = list(g.edge_guards(nodes[0])) + list(lexical_guards(pm, site, stop=st))
+        if st is fn:
+            nodes, guards = [g.entry], []      # a parameter default / decorator argument: unconditional
+        else:
+            nodes = g.nodes_for(st) if st is not None else []
+            ctx.require(nodes, f"{key}: statement not found in the CFG")
+            guards = list(g.edge_guards(nodes[0])) + list(lexical_guards(pm, site, stop=st))
+        if via is not None and via is not st:
+            # the flag is read through a once-bound local: the conditions under which that local was bound count too
+            vn = g.nodes_for(via)
+            if vn:
+                guards += list(g.edge_guards(vn[0]))
         if cond is not None:
             guards.append((cond, True))
-        reasons = set()
         for t, pol in guards:
             r = _implied_reasons(fn, t, pol, g)
             if r:
@@ -528,10 +677,15 @@ def r5(ctx):
                 via |= r
             reasons = via
         shown = " and ".join(("" if pol else "not ") + "(" + unparse(_resolve_local(fn, t)) + ")" for t, pol in guards) or "unconditionally"
+        what = "autoflush is switched off for this statement" if top is None else \
+            f"the passive flag NO_AUTOFLUSH is added to the flags of a load (`{unparse(top)}`, no LOAD_AGAINST_COMMITTED in the same flag set)"
         ctx.check(bool(reasons), key,
-                  f"autoflush is switched off for this statement under `{shown}`, which does not imply any whitelisted reason "
+                  f"{what} under `{shown}`, which does not imply any whitelisted reason "
                   f"({', '.join(sorted(OFF_REASONS))}): loads on this path no longer see pending changes",
                   "reason: " + ", ".join(sorted(reasons)), loc)
+    # (floor: 7 option sites + at least one flag site -- today 3, but a shared helper / constant may merge them)
+    ctx.require(n_flag >= 1, f"only {n_flag} site(s) that add the NO_AUTOFLUSH passive flag found (expected the old-value loads of "
+                             f"the scalar-object attribute implementation)")
 
 
 # ---------------------------------------------------------------------- R6: Session.autoflush is switched off only temporarily
@@ -890,3 +1044,57 @@ R.mutant("pk-load-autoflush-off-helper-called-unconditionally", LOADING, chain(
     sub(_PK_OFF, "    load_options = _without_autoflush(load_options)\n"),
     sub(_PK_DEF, _OFF_HELPER + _PK_DEF),
 ), "C47-R5")
+
+# ---- round 2 (str2-t): seed C47_3 (the lazy loader's identity-map probe given NO_AUTOFLUSH) and its family: sites that
+# put the NO_AUTOFLUSH passive flag INTO a flag set (C47-R5 flag sites)
+ATTRS = "orm/attributes.py"
+_PROBE_ARGS = "                primary_key_identity,\n                passive=passive,\n                lazy_loaded_from=state,\n"
+_PROBE_CALL = "            instance = session._identity_lookup(\n                self.entity,\n" + _PROBE_ARGS
+R.mutant("seed-lazyload-identity-probe-given-no-autoflush", STRAT, sub(
+    _PROBE_ARGS, "                primary_key_identity,\n                passive=passive | PassiveFlag.NO_AUTOFLUSH,\n                lazy_loaded_from=state,\n"), "C47-R5")
+R.mutant("lazyload-identity-probe-no-autoflush-through-local", STRAT, sub(
+    _PROBE_CALL, "            probe_flags = PassiveFlag.NO_AUTOFLUSH | passive\n"
+                 "            instance = session._identity_lookup(\n                self.entity,\n"
+                 "                primary_key_identity,\n                passive=probe_flags,\n                lazy_loaded_from=state,\n"), "C47-R5")
+R.mutant("lazyload-passive-augmented-with-no-autoflush", STRAT, sub(
+    _PROBE_CALL, "            passive |= attributes.NO_AUTOFLUSH\n" + _PROBE_CALL), "C47-R5")
+_OLD_VALUE_FLAGS = "                passive=PASSIVE_ONLY_PERSISTENT\n                | NO_AUTOFLUSH\n                | LOAD_AGAINST_COMMITTED,\n"
+R.mutant("old-value-load-no-autoflush-against-pending-values", ATTRS, sub(
+    _OLD_VALUE_FLAGS, "                passive=PASSIVE_ONLY_PERSISTENT | NO_AUTOFLUSH,\n", count=2), "C47-R5")
+R.mutant("prepackaged-merge-flags-carry-no-autoflush", BASE, sub(
+    "    PASSIVE_MERGE = PASSIVE_OFF | NO_RAISE\n", "    PASSIVE_MERGE = PASSIVE_OFF | NO_RAISE | NO_AUTOFLUSH\n"), "C47-R5")
+R.mutant("attribute-get-loader-callables-never-autoflush", ATTRS, sub(
+    "                value = self._fire_loader_callables(state, key, passive)\n",
+    "                value = self._fire_loader_callables(\n                    state, key, passive | NO_AUTOFLUSH\n                )\n"), "C47-R5")
+# benign: the same flag sets spelled through a local / a module constant / a helper; the probe's flags through an alias
+R.mutant("benign-lazyload-identity-probe-passive-alias", STRAT, sub(
+    _PROBE_CALL, "            probe_flags = passive\n"
+                 "            instance = session._identity_lookup(\n                self.entity,\n"
+                 "                primary_key_identity,\n                passive=probe_flags,\n                lazy_loaded_from=state,\n"), None)
+R.mutant("benign-old-value-flags-through-local", ATTRS, sub(
+    "        if self.dispatch._active_history:\n            old = self.get(\n                state,\n                dict_,\n" + _OLD_VALUE_FLAGS,
+    "        if self.dispatch._active_history:\n            committed_only = PASSIVE_ONLY_PERSISTENT | LOAD_AGAINST_COMMITTED\n"
+    "            old_value_flags = committed_only | NO_AUTOFLUSH\n"
+    "            old = self.get(\n                state,\n                dict_,\n                passive=old_value_flags,\n", count=2), None)
+R.mutant("benign-old-value-flags-module-constant", ATTRS, chain(
+    sub(_OLD_VALUE_FLAGS, "                passive=_OLD_VALUE_LOAD,\n", count=2),
+    sub("class _ScalarObjectAttributeImpl(_ScalarAttributeImpl):\n",
+        "_OLD_VALUE_LOAD = PASSIVE_ONLY_PERSISTENT | NO_AUTOFLUSH | LOAD_AGAINST_COMMITTED\n\n\n"
+        "class _ScalarObjectAttributeImpl(_ScalarAttributeImpl):\n"),
+), None)
+R.mutant("benign-old-value-flags-through-helper-inverted-branch", ATTRS, chain(
+    sub("    def delete(self, state: InstanceState[Any], dict_: _InstanceDict) -> None:\n        if self.dispatch._active_history:\n            old = self.get(\n                state,\n                dict_,\n" + _OLD_VALUE_FLAGS + "            )\n        else:\n"
+        "            old = self.get(\n                state,\n                dict_,\n                passive=PASSIVE_NO_FETCH ^ INIT_OK\n                | LOAD_AGAINST_COMMITTED\n                | NO_RAISE,\n            )\n",
+        "    def _old_value_flags(self):\n        return LOAD_AGAINST_COMMITTED | PASSIVE_ONLY_PERSISTENT | NO_AUTOFLUSH\n\n"
+        "    def delete(self, state: InstanceState[Any], dict_: _InstanceDict) -> None:\n        if not self.dispatch._active_history:\n"
+        "            old = self.get(\n                state,\n                dict_,\n                passive=PASSIVE_NO_FETCH ^ INIT_OK\n                | LOAD_AGAINST_COMMITTED\n                | NO_RAISE,\n            )\n"
+        "        else:\n            old = self.get(state, dict_, passive=self._old_value_flags())\n"),
+), None)
+# seed C47_4 (post-load statements skip the autoflush): the essence, for C47-R1, with a flag-local twin
+R.mutant("seed-pre-exec-autoflush-skipped-for-post-load-statements", CONTEXT, sub(
+    _PRE_GUARD, "        if (\n            not is_pre_event\n            and load_options._autoflush\n            and load_options._sa_top_level_orm_context is None\n        ):\n"
+                "            session._autoflush()\n\n        return statement, execution_options, params\n", count=2), "C47-R1")
+R.mutant("pre-exec-autoflush-early-return-for-post-load-statements", CONTEXT, sub(
+    _PRE_GUARD, "        if load_options._sa_top_level_orm_context is not None:\n            return statement, execution_options, params\n"
+                "        if not is_pre_event and load_options._autoflush:\n            session._autoflush()\n\n"
+                "        return statement, execution_options, params\n", count=2), "C47-R1")
